@@ -218,10 +218,10 @@ func (p *Prog) computeAutoMods() {
 					}
 				case *ssa.MapUpdate:
 					mt := in.Map.Type().Underlying().(*types.Map)
-					tag := sortTag(srt.sortOf(mt.Key())) + "$" + sortTag(srt.sortOf(mt.Elem()))
+					tag := mapTag(srt, mt)
 					ms.add("MapDom$" + tag)
 					ms.add("MapVal$" + tag)
-					ms.add("MapLen")
+					ms.add("MapLen$" + tag)
 				case *ssa.Send:
 					ms.Blocks, ms.BlockWhy = true, "channel send"
 				case *ssa.Select:
@@ -412,10 +412,10 @@ func (p *Prog) directCallEffects(srt *sorter, fn *ssa.Function, in ssa.CallInstr
 			}
 		case "delete", "clear":
 			if mt, ok := c.Args[0].Type().Underlying().(*types.Map); ok {
-				tag := sortTag(srt.sortOf(mt.Key())) + "$" + sortTag(srt.sortOf(mt.Elem()))
+				tag := mapTag(srt, mt)
 				ms.add("MapDom$" + tag)
 				ms.add("MapVal$" + tag)
-				ms.add("MapLen")
+				ms.add("MapLen$" + tag)
 			}
 		}
 		return
